@@ -33,6 +33,9 @@ FUNCS = [
     ("fix_whitespace", "gapic/generator/formatter.py", "fix_whitespace", []),
     ("make_private", "gapic/utils/code.py", "make_private", []),
     ("coerce_response_name", "gapic/samplegen_utils/utils.py", "coerce_response_name", []),
+    ("to_camel_case", "gapic/utils/case.py", "to_camel_case", []),
+    ("fix_name_segment", "gapic/utils/uri_conv.py", "convert_uri_fieldnames._fix_name_segment", []),
+    ("fix_field_path", "gapic/utils/uri_conv.py", "convert_uri_fieldnames._fix_field_path", []),
 ]
 
 TABLES = {"RESERVED_NAMES": "reservedNames"}       # module-level tables available as Pinned.<name> : List String
@@ -79,6 +82,7 @@ class Tr:
         self.consts = _module_consts(tree)
         self.self_attrs = dict(self_attrs)
         self.env = {}
+        self.nonempty = set()          # locals bound (once) to the result of str.split / re.split
 
     # ---- types
     def ann(self, a):
@@ -214,6 +218,9 @@ class Tr:
                 and isinstance(e.value.func, ast.Attribute) and e.value.func.attr == "split":
             v, tv = self.expr(e.value)
             return f"(head0 {v})", "Str"
+        if isinstance(e.slice, ast.Constant) and e.slice.value == 0 and isinstance(e.value, ast.Name) and e.value.id in self.nonempty:
+            v, tv = self.expr(e.value)          # a local bound to a `split` result: never empty
+            return f"(head0 {v})", "Str"
         raise Refused("index expression (only `.split(sep)[0]` cannot raise)")
 
     def comp(self, g):
@@ -253,13 +260,14 @@ class Tr:
                 return self.comp(e.args[0])
             if f.id in self.known:
                 sig = self.known[f.id]
+                lean_name = sig.get("lean", f.id)
                 if len(e.args) != len(sig["params"]): raise Refused("arity of " + f.id)
                 args = []
                 for a, (_, pty) in zip(e.args, sig["params"]):
                     t, ty = self.expr(a)
                     if ty != pty: raise Refused(f"argument type {ty} for {pty}")
                     args.append(t)
-                return f"({f.id} {' '.join(args)})", sig["ret"]
+                return f"({lean_name} {' '.join(args)})", sig["ret"]
             raise Refused(f"call of {f.id}")
         if isinstance(f, ast.Attribute) and isinstance(f.value, ast.Name) and f.value.id == "re":
             if f.attr == "sub" and len(e.args) == 3:
@@ -268,6 +276,13 @@ class Tr:
                 s, ts = self.expr(e.args[2])
                 if ts != "Str": raise Refused("re.sub on " + ts)
                 return f"(reSub {pat} {repl} {s})", "Str"
+            if f.attr == "split" and len(e.args) == 2:
+                pstr = self.strlit(e.args[0], "pattern")
+                if T.regex_to_json(pstr)["minwidth"] < 1 or T.regex_to_json(pstr)["ngroups"] != 0:
+                    raise Refused("re.split with a pattern that can match the empty string or has groups")
+                s_, ts = self.expr(e.args[1])
+                if ts != "Str": raise Refused("re.split on " + ts)
+                return f"(reSplit {self.pattern(e.args[0])} {s_})", "ListStr"
             if f.attr in ("match", "search", "fullmatch") and len(e.args) == 2:
                 pat = self.pattern(e.args[0]); s, ts = self.expr(e.args[1])
                 if ts != "Str": raise Refused("re.%s on %s" % (f.attr, ts))
@@ -322,6 +337,10 @@ class Tr:
             if isinstance(s, ast.Assign):
                 if len(s.targets) != 1 or not isinstance(s.targets[0], ast.Name): raise Refused("assignment target")
                 name, (t, ty) = s.targets[0].id, self.expr(s.value)
+                if isinstance(s.value, ast.Call) and isinstance(s.value.func, ast.Attribute) and s.value.func.attr == "split":
+                    self.nonempty.add(name)
+                else:
+                    self.nonempty.discard(name)
             elif isinstance(s, ast.AnnAssign):
                 if not isinstance(s.target, ast.Name) or s.value is None: raise Refused("annotated assignment")
                 name, (t, ty) = s.target.id, self.expr(s.value)
@@ -379,7 +398,7 @@ def translate_functions():
             r = translate_one(key, rel, qual, self_attrs, known)
             out[key] = r
             if not self_attrs:
-                known[qual] = {"params": r["params"], "ret": r["ret"]}
+                known[qual.split(".")[-1]] = {"params": r["params"], "ret": r["ret"], "lean": key}
         except Refused as ex:
             out[key] = {"error": str(ex), "file": rel, "qual": qual}
         except Exception as ex:          # the source no longer parses / the file moved
